@@ -397,6 +397,14 @@ def run_c11(ctx):
     d = scratch()
     try:
         sub = [x for x in items if x[0].startswith("probe") or x[0] == "fixed"][:40] + items[-12:]
+        # texts the visitor diagnoses, in the layouts a diagnostic printer can trip over: no final newline with a last line longer than
+        # every other one (positions taken from the end of input point past the end of shorter lines), CRLF, a tab-indented copy
+        tail = "// end of the protocol definition " + "-" * 160
+        flt = [x for x in items if x[0].startswith("fault:")][: (12 if ctx.tier == "quick" else 200)]
+        for kind, t in flt:
+            sub.append((kind + "/no-final-newline", t.rstrip("\n") + tail))
+            sub.append((kind + "/crlf", t.replace("\n", "\r\n")))
+            sub.append((kind + "/tabs", t.replace("    ", "\t").rstrip("\n")))
         for kind, t in sub:
             f = os.path.join(d, "x.dsl")
             with open(f, "w", encoding="utf-8") as fh:
@@ -491,6 +499,7 @@ def run_c12(ctx):
                     # the same ill-formed text as a file with CRLF line ends (and, sometimes, blank lines on top): same line numbers
                     k = rng.choice([0, 0, 2])
                     items.append((cls, "\r\n" * k + r[0].replace("\n", "\r\n"), r[1] + k))
+    items += [("dup_match_key", t, line) for t, line in faults.dup_key_programs()]
     # documented option values, one at a time
     for k, vals in (("LittleEndian", ["true", "false"]), ("StringPrefixLenType", ["u8", "u16", "u32", "u64"]), ("ArrayPrefixLenType", ["u8", "u16", "u32", "u64"]),
                     ("FixedStringPadFromLeft", ["true", "false"]), ("FixedStringPadChar", ["'0'", "' '", "'\\x00'"]),
